@@ -25,8 +25,9 @@
 
    Names ending in _partial: proved on the domain of addr_of and the guards above.  What they do
    not cover, exactly: (1) key strings that are not canonical ("07", "+7", "acl:ACL_IPV6" for an
-   identity): SetNode creates the entry under the parsed key and GetNode with the same string
-   finds nothing, c10_refuted_noncanonical_key; (2) elements without all keys, wildcards, a list
+   identity): SetNode creates the entry under the parsed key (or, when the map holds that key
+   already, acts on the existing entry) and GetNode with the same string finds nothing,
+   c10_refuted_noncanonical_key; (2) elements without all keys, wildcards, a list
    named without keys; (3) a target that is a key leaf of its entry (kl = true: the C16
    key-leaf-overwrite finding); (4) trees outside root_ok: a map key that is not read back from
    its string (union {int; string} holding "5", `empty` keys, NaN), key leaf <> map key, unsorted
@@ -190,8 +191,8 @@ Example c10_schema_guards :
   /\ tree_ok ex_env ex_fo ex_ko loose_guard ex_schema ex_tree = true.
 Proof. repeat split; try (vm_compute; reflexivity). exists 10%nat. vm_compute. reflexivity. Qed.
 
-(* a key written "07": SetNode creates the entry with key 7, GetNode("07") compares the string
-   with "7" and finds nothing.  (Also false for the reported path: a multi-key element is
+(* a key written "07" (the tree holds no entry 7): SetNode creates the entry with key 7,
+   GetNode("07") compares the string with "7" and finds nothing.  (Also false for the reported path: a multi-key element is
    returned with its keys in sorted order.) *)
 Theorem c10_refuted_noncanonical_key : ~ c10_full.
 Proof.
